@@ -414,6 +414,75 @@ def translator_selftest(ctx, res: Result):
         shutil.rmtree(tmp, ignore_errors=True)
 
 
+# =================================================================== lock-step: Pipeline model under the filter's mask
+def lockstep_filtered(ctx, res: Result):
+    """The REAL gated observer, scheduled with event_filter=F, against the extracted Pipeline model configured the way
+    C11_transparent_sequential(_all) configures the filtered watch: c_mask = the event bits of mask_of_filter F,
+    pc_filter = F.  Compared action by action (harness/pipe.compare): the raw records the real kernel hands to the
+    reader under the reduced mask (Fs.knotify's delivery rule), and the events of every queue_events() call.
+    Histories: drained and bursty (the model is the full Pipeline LTS, not only the drained regime)."""
+    from harness import pipe
+    rng = ctx.rng("lockstep")
+    singles, pairs, rand = filter_universe(ctx, 20)
+    filters = singles + (pairs + rand if ctx.thorough else pairs[::9] + rand[:4])
+    n = 1500 if ctx.thorough else 150
+    masks = core.run_model("masktable", [sx([Atom("effective"), r, filt_wire(F)]) for F in filters for r in (False, True)])
+    mask_of = {}
+    it = iter(masks)
+    for F in filters:
+        for r in (False, True):
+            mask_of[(tuple(F), r)] = int(next(it)) & 0xFFF
+    batch = []
+    for i in range(n):
+        F = filters[i % len(filters)]
+        recursive = bool((i // len(filters) + i) & 1)
+        full = bool(i & 2)
+        kind = "bytes" if i % 5 == 0 else "str"
+        hist = pipe.gen_history(rng, n_ops=rng.randint(3, 12), paced=True, burst_prob=rng.choice([0.0, 0.5, 0.9]))
+        run = pipe.Run(recursive=recursive, full=full, path_kind=kind, event_filter=[ev_class(x) for x in F])
+        try:
+            run.execute(hist)
+            # pipe.Run.model_case with the filter's mask and class filter in place of ("all", "none")
+            root = os.fsencode(run.rootp)
+            cfg = [recursive, full, pipe.DELAY_UNITS, root, mask_of[(tuple(F), recursive)], True, True, True, [],
+                   [Atom(x) for x in F]]
+            ents = [[pth, j + 1, d] for j, (pth, d) in enumerate(run.init_fs)]
+            acts = []
+            for e in run.log:
+                if e["a"] == "op":
+                    a = [Atom(e["kind"]), os.fsencode(run.real(e["path"]))]
+                    if e["kind"] == "rename":
+                        a.append(os.fsencode(run.real(e["path2"])))
+                    acts.append(a)
+                elif e["a"] == "read":
+                    acts.append([Atom("read"), e["k"]])
+                elif e["a"] == "emit":
+                    acts.append(Atom("emit"))
+                elif e["a"] == "tick":
+                    acts.append([Atom("tick"), e["d"]])
+            case = sx([cfg, [ents, len(ents) + 1], acts])
+        finally:
+            run.close()
+        meta = {"pair": "Pipeline model (c_mask = kmask F, pc_filter = F) vs real observer with event_filter",
+                "filter": F, "recursive": recursive, "full_events": full, "path_kind": kind, "history": hist}
+        batch.append((meta, run, case))
+        res.evaluations += 1
+        res.hist("lockstep_filter_size", len(F))
+        nev = sum(len(e["events"]) for e in run.log if e["a"] == "emit")
+        nraw = sum(len(e["raw"]) for e in run.log if e["a"] == "read")
+        res.hist("lockstep_raw_records", min(nraw, 24) // 4 * 4)
+        if nev and nraw:
+            res.nontrivial.add(core.digest(["lockstep", F, recursive, full, hist]))
+    outs = core.run_model("pipeline", [c for _, _, c in batch])
+    for (meta, run, _), o in zip(batch, outs):
+        res.traces_validated += 1
+        diffs = pipe.compare(run, o)
+        if diffs:
+            what, idx, m, r = diffs[0]
+            res.mismatches.append(Mismatch(meta["pair"] + ": " + what, {k: v for k, v in meta.items() if k != "pair"} | {"at_action": idx},
+                                           str(m)[:600], str(r)[:600]))
+
+
 # =================================================================== end-to-end: two watches on the real kernel
 # operations: paths relative to the lane's root R ("o:" prefix = relative to the sibling directory O, outside the watch)
 HISTORIES = {
@@ -893,6 +962,9 @@ def run(ctx) -> Result:
     unit_emit(ctx, res)
     gaps = unit_mask(ctx, res)
     translator_selftest(ctx, res)
+    tl = time.time()
+    lockstep_filtered(ctx, res)
+    res.notes.append(f"timing: lock-step of the filtered Pipeline model {time.time() - tl:.1f}s")
     t1 = time.time()
     if gaps:
         res.notes.append("static reading of the table in the source: flags that matter but are absent from the real mask: "
